@@ -16,6 +16,10 @@ CHECKS = {
             'all pairs/ITE triples of F(3) x aliases x orders x contexts, autoref Function operators, '
             'F(4) x probe set (thorough); BFS over histories compares every result with the model',
             'DESIGN.md 2/C01'),
+    'C02': (MC[0], MC[1] + ' + exhaustive construction-route sweep',
+            'state invariant (canonicity incl. semantic distinctness) in every BFS state; every function '
+            'of n<=3 (4 thorough) variables built by 10 routes must give the same integer',
+            'DESIGN.md 2/C02'),
     'C03': (EX[0], EX[1], 'all functions x all subsets x both quantifiers x orders x contexts x entry '
             'points', 'DESIGN.md 2/C03'),
     'C04': (EX[0], EX[1], 'all functions x all partial assignments x all variable maps x single '
@@ -24,6 +28,8 @@ CHECKS = {
             'exact-count / canonicity / denotation invariants in every state', 'DESIGN.md 2/C06'),
     'C10': (EX[0], EX[1], 'all functions x all care sets x all n up to support+3 x orders',
             'DESIGN.md 2/C10'),
+    'C12': (EX[0], EX[1], 'order pairs x root tuples x formats x flags x target states; refusal '
+            'accepted only for documented conflicts', 'DESIGN.md 2/C12'),
     'C18': (EX[0], EX[1], 'all functions, root sets of size 1-2, every view evaluated',
             'DESIGN.md 2/C18'),
 }
